@@ -732,8 +732,17 @@ class ProgGen:
         self.force_scope = None                        # inside a module-level helper only module globals are visible
 
     # ------------------------------------------------------------------ names
-    def binder(self, env, avoid=()) -> str:
+    def binder(self, env, avoid=(), shadow=True) -> str:
         inscope = {n for n, _ in env} | set(avoid) | self.reserved
+        if not shadow:
+            # the target of a set / dictionary comprehension (never lowered to an operator lambda): a fresh name.  The
+            # simplifier's renaming knows comprehension scopes since F50, but a definition substituted into such a
+            # comprehension is not protected from its targets (DESIGN 11.4); the generator stays clear of both.
+            cand = [b for b in self.BINDERS if b not in inscope]
+            if cand:
+                return self.r.choice(cand)
+            self.fresh += 1
+            return "z%d" % self.fresh
         # now and then re-use the name of a captured variable or helper (it must be hidden by the parameter)
         if self.mode == "callable" and self.caps and self.r.random() < 0.06:
             c = self.r.choice(sorted(self.caps))
@@ -1167,7 +1176,7 @@ class ProgGen:
         if not ch:
             return None
         rec, e = r.choice(ch)
-        b = self.binder(env)
+        b = self.binder(env, shadow=False)
         env2 = env + [(b, REC(e))]
         elt = r.choice(["%s.a" % b, "%s.b" % b, "(%s.a + %s.b)" % (b, b), self.int_leaf(env2), self.int_leaf(env2)])
         cond = (" if %s" % self.bool_expr(env2, 0)) if r.random() < 0.3 else ""
